@@ -36,13 +36,52 @@ def strategy(tier):
         st.tuples(st.just("perm"), st.integers(0, 10**6)),
         st.tuples(st.just("index"), st.sampled_from(["offset", "shuffled", "str"])),
         st.tuples(st.just("affine"), st.sampled_from([0.5, 2, 4, 3, 10, 1000]), st.integers(-1000, 1000)),
+        st.tuples(st.just("affine"), st.sampled_from([1, 1, 4]), st.sampled_from([1024, 4096, 2**20, -(2**20)])),
         st.tuples(st.just("rename"), st.integers(0, 10**6)),
         st.tuples(st.just("rename"), st.integers(0, 10**6)),
     )
-    return st.tuples(
+    general = st.tuples(
         fitted_case(("BinaryCarver", "ContinuousCarver"), quant_pools=POOLS, dev_modes=("none", "none", "same", "perturbed", "independent")),
         st.lists(enc, min_size=1, max_size=3),
     ).map(lambda t: dict(t[0], encodings=t[1]))
+
+    @st.composite
+    def grid_case(draw):
+        """One continuous feature whose n distinct values each occur once, with n-1 a multiple of the number of
+        quantiles: every quantile level falls exactly on an observation (the rounding-sensitive situation for
+        quantile cuts), re-encoded by large exact shifts."""
+        min_freq = draw(st.sampled_from([0.02, 0.05, 0.1, 0.2, 0.25]))
+        q = round(1 / min_freq)
+        n = q * draw(st.integers(1, max(1, 400 // q))) + 1
+        start = draw(st.sampled_from([0, 0, 1, 2, -3, 8, 40, 200]))
+        values = [(start + i) / 4 for i in range(n)]
+        # the target switches at (or right after) an observation on which a quantile level falls
+        import numpy as np
+
+        # prefer the levels whose rank level*(n-1) is not computed exactly in binary floating point: that is
+        # where an interpolating quantile would land a hair beside the observation
+        levels = np.linspace(0, 1, q + 1)
+        inexact = [j for j in range(1, q) if float(levels[j] * (n - 1)) != float((n - 1) * j // q)]
+        k = draw(st.sampled_from(inexact)) if inexact and draw(st.booleans()) else draw(st.integers(1, q - 1))
+        cut = min(n - 1, max(1, (n - 1) * k // q + draw(st.integers(0, 1))))
+        flips = set(draw(st.lists(st.integers(0, n - 1), max_size=n // 20)))
+        level = [(1 if i >= cut else 0) ^ (1 if i in flips else 0) for i in range(n)]
+        if sum(level) in (0, n):
+            level[0] = 1 - level[0]
+        table = [[0 if l else 1 for l in level] + [0], [1 if l else 0 for l in level] + [0]]
+        blocks = [n - sum(level), sum(level)]
+        max_groups = 3 if min_freq < 0.05 else (4 if min_freq < 0.1 else 6)
+        cfg = {"cls": "BinaryCarver", "min_freq": min_freq, "min_freq_mod": None, "max_n_mod": draw(st.integers(2, max_groups)), "dropna": True,
+               "output_dtype": "float", "copy": True, "sort_by": draw(st.sampled_from(["tschuprowt", "cramerv"])), "n_jobs": 1}
+        case = {"target": {"kind": "binary", "levels": [0, 1], "blocks": blocks}, "dev_blocks": None,
+                "features": [{"name": "q0", "kind": "continuous", "pool": "dyadic", "values": values, "train": table, "dev": None}],
+                "key": draw(st.integers(0, 2**20)), "index": "range", "config": cfg}
+        shifts = draw(st.lists(st.tuples(st.just("affine"), st.sampled_from([1, 1, 4, 0.5]), st.sampled_from([1024, 4096, 2**20, -(2**20), 3])), min_size=1, max_size=3))
+        case["encodings"] = shifts
+        case["grid"] = True
+        return case
+
+    return st.one_of(general, general, general, grid_case())
 
 
 def make_carver(case, rankings):
